@@ -21,7 +21,7 @@ RULE = (
     "3 overlapping, 2 nested} x rweight/resolution{4, incl. rweight=0.0} x cosmology{default name, instance, other name, CustomCosmology with D_A != D_C/(1+z), closed LambdaCDM instance; the last two are created after a decoy configuration with a sibling instance of the same class and other parameters}; "
     "custom edges; invalid alphabet (non-increasing edges, NaN edges, zmin/zmax NaN or inf, rmin>=rmax, unknown method/unit/cosmology, "
     "missing zmin/zmax/edges, length mismatch); modify: every single parameter value (incl. the falsy values zmin=0, zmax=0, num_bins=0, rweight=0) and every pair of "
-    "parameter values on 9 base configurations vs create(**merged). Non-trivial: non-default cosmology or "
+    "parameter values on 9 base configurations vs create(**merged); after a single modification a second, different one of the same original (must start from the original again). Non-trivial: non-default cosmology or "
     "non-linear method or a modification that changes the edges/angles. Distinct: canonical JSON."
 )
 ASSUMPTIONS = [
@@ -398,7 +398,9 @@ def run_modify(case):
         return [viol(f"C15/create/exception:{type(e).__name__}/{tag}",
                      f"valid parameters rejected: {yawx.exc_name(e)}", base)], True
     before = describe(conf)
-    before_dict = conf.to_dict() if base.get("cosmology") not in ("custom", "curved") else None
+    import copy
+
+    before_dict = copy.deepcopy(conf.to_dict()) if base.get("cosmology") not in ("custom", "curved") else None
     v = []
     # signature: binning-related parameter names only (they select the code path), others as "other"
     sigmod = "+".join(sorted({n if n in ("zmin", "zmax", "num_bins", "method", "edges", "closed", "cosmology")
@@ -433,6 +435,20 @@ def run_modify(case):
                     v.append(viol(f"C15/modify/not-equal-to-create/{sigmod}/{tag}", "modify result != create(**merged)"))
             except Exception as e:
                 v.append(viol(f"C15/eq/exception:{type(e).__name__}", f"== raised {yawx.exc_name(e)}"))
+    if got is not None and len(case["names"]) == 1:
+        # a second, different modification of the same original starts from the original again
+        other = dict(rmax=(np.asarray(base["rmax"]) * 3).tolist()) if "rmax" not in mod and "rmin" not in mod else dict(closed="left" if base.get("closed", "right") == "right" else "right")
+        try:
+            want2 = yaw.Configuration.create(**realise(merged_params(base, other)))
+            got2 = conf.modify(**realise(other))
+            diff2 = same_meaning(describe(want2), describe(got2))
+            dicts_differ = before_dict is not None and got2.to_dict() != want2.to_dict()
+            if diff2 is not None or not (got2 == want2) or dicts_differ:
+                v.append(viol(f"C15/modify/second-modify-inherits-first/{sigmod}",
+                              f"after modify({mod}) a second modify({other}) of the same original does not equal "
+                              f"create(**merged): {diff2 or 'to_dict/== differ'}"))
+        except Exception as e:
+            v.append(viol(f"C15/modify/second/exception:{type(e).__name__}", f"second modify raised {yawx.exc_name(e)}"))
     after = describe(conf)
     if same_meaning(before, after, tol=0.0) is not None or (
             before_dict is not None and conf.to_dict() != before_dict):
